@@ -117,6 +117,10 @@ P16 == [][PropHolds("C16", g, O, g')]_vars
 \* C17.f apart from the F2 signature (known finding)
 P17 == [][PropHolds("C17", g, O, g') \/ F2sig(g, O)]_vars
 P18 == [][PropHolds("C18", g, O, g')]_vars
+\* the known findings are behaviours of the specification too (it mirrors the code): TLC must be able
+\* to FIND a violation of these two (used as witnesses, expected to be violated)
+W_F2 == [][C17f(g, O, g')]_vars
+W_F6 == [][C05keep(g, O, g')]_vars
 
 \* the ghost's idea of each connection agrees with the server's own flags
 \* (the protocol-level observer and the implementation never drift apart)
